@@ -239,7 +239,7 @@ def classify_call(f):
         if f in CYCLIC or head in ("length", "equal?", "display", "write"):
             return "cyclic-data"
         return None
-    if head == "make-vector" and rest.split(" ")[0] in HUGE:
+    if head == "make-vector" and rest.rstrip(")").split(" ")[0] in HUGE:
         return "make-vector-huge"
     if head in ("expt", "pow"):
         a = rest.rstrip(")").split(" ")
